@@ -626,7 +626,12 @@ pub mod verif_hooks {
         let mut writer = logs::TaskLogWriter::new(&config, artifact_id, "blob", max_bytes).await?;
         let mut ranges = Vec::new();
         for chunk in chunks {
-            ranges.push(writer.append(chunk).await.map_err(|_| "append failed".to_string())?);
+            ranges.push(
+                writer
+                    .append(chunk)
+                    .await
+                    .map_err(|_| "append failed".to_string())?,
+            );
         }
         Ok((ranges, writer.finish().as_json()))
     }
